@@ -380,7 +380,19 @@ func checkC15(c *Ctx, w *World) {
 			c.fail("C15.close", "pools delete", p.ipos(call), "pool deleted outside an iteration over the pools")
 			continue
 		}
+		// the set stores only `true`: its plain lookup is the membership test as well
+		onlyTrue := valid != nil
+		eachInstr(g.upd, func(in ssa.Instruction) {
+			if mu, ok := in.(*ssa.MapUpdate); ok && mu.Map == valid {
+				if k, isK := stripConv(mu.Value).(*ssa.Const); !isK || k.Value == nil || k.Value.String() != "true" {
+					onlyTrue = false
+				}
+			}
+		})
 		inValid := func(v ssa.Value) bool {
+			if l, ok := stripConv(v).(*ssa.Lookup); ok && !l.CommaOk && onlyTrue && l.X == valid && loop.key(l.Index) {
+				return true
+			}
 			e, ok := stripConv(v).(*ssa.Extract)
 			if !ok || e.Index != 1 {
 				return false
